@@ -186,6 +186,225 @@ theorem wired_selection_sound (a : Actor) (ms : List MemberDc) (lvl : Level) (ch
   obtain ⟨h1, h2, h3, h4, _⟩ := hsnd.2.2 ns hns
   exact ⟨h1, h2, h3, h4⟩
 
+
+/-! ### The local data centre is in the installed map -/
+
+theorem mem_insertById (m x : MemberDc) : ∀ l : List MemberDc, x ∈ insertById m l → x = m ∨ x ∈ l
+  | [], h => by simp [insertById] at h; exact Or.inl h
+  | y :: ys, h => by
+    simp only [insertById] at h
+    split at h
+    · rcases List.mem_cons.1 h with h | h
+      · exact Or.inl h
+      · exact Or.inr h
+    · split at h
+      · rcases List.mem_cons.1 h with h | h
+        · exact Or.inl h
+        · exact Or.inr (List.mem_cons_of_mem _ h)
+      · rcases List.mem_cons.1 h with h | h
+        · exact Or.inr (h ▸ List.mem_cons_self)
+        · rcases mem_insertById m x ys h with h | h
+          · exact Or.inl h
+          · exact Or.inr (List.mem_cons_of_mem _ h)
+
+theorem insertById_sorted (m : MemberDc) : ∀ l : List MemberDc, l.Pairwise (fun a b => a.1 < b.1) →
+    (insertById m l).Pairwise (fun a b => a.1 < b.1)
+  | [], _ => by simp [insertById]
+  | y :: ys, h => by
+    rw [List.pairwise_cons] at h
+    simp only [insertById]
+    split
+    · rename_i hlt
+      refine List.Pairwise.cons ?_ (List.Pairwise.cons h.1 h.2)
+      intro z hz
+      rcases List.mem_cons.1 hz with rfl | hz
+      · exact hlt
+      · exact Nat.lt_trans hlt (h.1 z hz)
+    · split
+      · rename_i _ heq
+        refine List.Pairwise.cons ?_ h.2
+        intro z hz; rw [heq]; exact h.1 z hz
+      · rename_i h1 h2
+        refine List.Pairwise.cons ?_ (insertById_sorted m ys h.2)
+        intro z hz
+        rcases mem_insertById m z ys hz with rfl | hz
+        · omega
+        · exact h.1 z hz
+
+/-- `m` stays a member when entries with other ids are inserted. -/
+theorem mem_insertById_other (m x : MemberDc) (hne : x.1 ≠ m.1) : ∀ l : List MemberDc, x ∈ l → x ∈ insertById m l
+  | [], h => by cases h
+  | y :: ys, h => by
+    simp only [insertById]
+    split
+    · exact List.mem_cons_of_mem _ h
+    · split
+      · rename_i _ heq
+        rcases List.mem_cons.1 h with rfl | h
+        · exact absurd heq.symm hne
+        · exact List.mem_cons_of_mem _ h
+      · rcases List.mem_cons.1 h with rfl | h
+        · exact List.mem_cons_self
+        · exact List.mem_cons_of_mem _ (mem_insertById_other m x hne ys h)
+
+theorem mem_insertById_self (m : MemberDc) : ∀ l : List MemberDc, m ∈ insertById m l
+  | [] => by simp [insertById]
+  | y :: ys => by
+    simp only [insertById]
+    split
+    · exact List.mem_cons_self
+    · split
+      · exact List.mem_cons_self
+      · exact List.mem_cons_of_mem _ (mem_insertById_self m ys)
+
+theorem sortById_spec (ms : List MemberDc) (hid : (ms.map (·.1)).Nodup) :
+    (sortById ms).Pairwise (fun a b => a.1 < b.1) ∧ (∀ x, x ∈ sortById ms ↔ x ∈ ms) := by
+  unfold sortById
+  suffices h : ∀ (l acc : List MemberDc), acc.Pairwise (fun a b => a.1 < b.1) → ((acc ++ l).map (·.1)).Nodup →
+      (l.foldl (fun acc m => insertById m acc) acc).Pairwise (fun a b => a.1 < b.1) ∧
+      (∀ x, x ∈ l.foldl (fun acc m => insertById m acc) acc ↔ x ∈ acc ∨ x ∈ l) by
+    obtain ⟨h1, h2⟩ := h ms [] List.Pairwise.nil (by simpa using hid)
+    exact ⟨h1, fun x => by rw [h2 x]; simp⟩
+  intro l
+  induction l with
+  | nil => intro acc hs _; exact ⟨hs, fun x => by simp⟩
+  | cons m rest ih =>
+    intro acc hs hnd
+    simp only [List.foldl_cons]
+    have hm_notin : ∀ y ∈ acc, y.1 ≠ m.1 := by
+      intro y hy heq
+      rw [List.map_append, List.nodup_append] at hnd
+      exact hnd.2.2 y.1 (List.mem_map.2 ⟨y, hy, rfl⟩) m.1 (List.mem_map.2 ⟨m, List.mem_cons_self, rfl⟩) heq
+    have hnd' : ((insertById m acc ++ rest).map (·.1)).Nodup := by
+      -- the ids of `insertById m acc ++ rest` are those of `acc ++ m :: rest`, rearranged
+      rw [List.map_append, List.nodup_append] at hnd ⊢
+      obtain ⟨ha, hr, hdisj⟩ := hnd
+      rw [List.map_cons, List.nodup_cons] at hr
+      refine ⟨?_, hr.2, ?_⟩
+      · exact (insertById_sorted m acc hs).imp (fun h => Nat.ne_of_lt h) |> fun hp => by
+          rw [List.Nodup, List.pairwise_map]; exact hp
+      · intro a ha' b hb heq
+        obtain ⟨x, hx, rfl⟩ := List.mem_map.1 ha'
+        rcases mem_insertById m x acc hx with rfl | hx
+        · exact hr.1 (heq ▸ hb)
+        · exact hdisj x.1 (List.mem_map.2 ⟨x, hx, rfl⟩) b (List.mem_cons_of_mem _ hb) heq
+    obtain ⟨i1, i2⟩ := ih (insertById m acc) (insertById_sorted m acc hs) hnd'
+    refine ⟨i1, fun x => ?_⟩
+    rw [i2 x]
+    constructor
+    · rintro (h | h)
+      · rcases mem_insertById m x acc h with rfl | h
+        · exact Or.inr List.mem_cons_self
+        · exact Or.inl h
+      · exact Or.inr (List.mem_cons_of_mem _ h)
+    · rintro (h | h)
+      · exact Or.inl (mem_insertById_other m x (hm_notin x h) acc h)
+      · rcases List.mem_cons.1 h with rfl | h
+        · exact Or.inl (mem_insertById_self x acc)
+        · exact Or.inr h
+
+/-- In an id-sorted list, a member that is the first at its address (no member with a smaller id
+has it) survives `keepFirstAddr`. -/
+theorem keepFirstAddr_keeps : ∀ (l : List MemberDc) (seen : List Nat) (m : MemberDc),
+    l.Pairwise (fun a b => a.1 < b.1) → m ∈ l → m.2.1 ∉ seen →
+    (∀ x ∈ l, x.2.1 = m.2.1 → m.1 ≤ x.1) → m ∈ keepFirstAddr l seen
+  | [], _, _, _, h, _, _ => by cases h
+  | y :: ys, seen, m, hs, hm, hseen, hfirst => by
+    rw [List.pairwise_cons] at hs
+    simp only [keepFirstAddr]
+    rcases List.mem_cons.1 hm with rfl | hm'
+    · rw [if_neg (by intro hc; exact hseen (List.contains_iff_mem.1 hc))]
+      exact List.mem_cons_self
+    · have hlt : y.1 < m.1 := hs.1 m hm'
+      have hne : y.2.1 ≠ m.2.1 := by
+        intro he
+        have := hfirst y List.mem_cons_self he
+        omega
+      split
+      · exact keepFirstAddr_keeps ys seen m hs.2 hm' hseen (fun x hx => hfirst x (List.mem_cons_of_mem _ hx))
+      · refine List.mem_cons_of_mem _ (keepFirstAddr_keeps ys (y.2.1 :: seen) m hs.2 hm' ?_
+          (fun x hx => hfirst x (List.mem_cons_of_mem _ hx)))
+        intro hin
+        rcases List.mem_cons.1 hin with h | h
+        · exact hne h.symm
+        · exact hseen h
+
+theorem getDc_map_mk (layout : List (Nat × List Nat)) (d : Nat) (ns : List Nat) (h : (d, ns) ∈ layout)
+    (hnd : (layout.map (·.1)).Nodup) :
+    getDc (layout.map (fun p => (p.1, (⟨0, p.2⟩ : Cycler)))) d = some ⟨0, ns⟩ := by
+  induction layout with
+  | nil => cases h
+  | cons p ps ih =>
+    rw [List.map_cons, List.nodup_cons] at hnd
+    simp only [List.map_cons, getDc]
+    rcases List.mem_cons.1 h with rfl | h'
+    · simp
+    · have : p.1 ≠ d := fun e => hnd.1 (List.mem_map.2 ⟨(d, ns), h', e.symm⟩)
+      rw [if_neg this]
+      exact ih h' hnd.2
+
+/-- **local_dc_present**: when the membership snapshot (distinct node ids) contains the local
+member and no member with a smaller id sits at the local address, the local data centre is in the
+installed map and lists the local address: the remaining hypothesis `hl` of `wired_selection_sound`
+holds, and the local node counts in the quorum sizes of its own data centre. -/
+theorem local_dc_present (a : Actor) (ms : List MemberDc) (hid : (ms.map (·.1)).Nodup)
+    (self : MemberDc) (hself : self ∈ ms) (hfirst : ∀ x ∈ ms, x.2.1 = self.2.1 → self.1 ≤ x.1) :
+    ∃ c, getDc (setNodes a (dcLayout ms)).dcs self.2.2 = some c ∧ self.2.1 ∈ c.nodes := by
+  obtain ⟨hsorted, hmem⟩ := sortById_spec ms hid
+  have hkept : self ∈ keepFirstAddr (sortById ms) [] :=
+    keepFirstAddr_keeps (sortById ms) [] self hsorted ((hmem self).2 hself) (by simp)
+      (fun x hx he => hfirst x ((hmem x).1 hx) he)
+  have hdsorted := dcs_sorted ((keepFirstAddr (sortById ms) []).map (·.2.2))
+  generalize hk : keepFirstAddr (sortById ms) [] = kept at hkept hdsorted
+  generalize hdcs : (kept.map (·.2.2)).foldr insertNat [] = dcs at hdsorted
+  have hlay : dcLayout ms = dcs.map (fun d => (d, (kept.filter (fun m => m.2.2 == d)).map (·.2.1))) := by
+    unfold dcLayout; simp only [hk, hdcs]
+  have hids : ((dcLayout ms).map (·.1)) = dcs := by
+    rw [hlay, List.map_map]
+    have : ((fun p : Nat × List Nat => p.1) ∘ fun d => (d, (kept.filter (fun m => m.2.2 == d)).map (·.2.1))) = id := rfl
+    rw [this, List.map_id]
+  have hfold : (setNodes a (dcLayout ms)).dcs = (dcLayout ms).map (fun p => (p.1, ⟨0, p.2⟩)) := by
+    unfold setNodes
+    simp only
+    rw [foldl_insertDc_sorted (dcLayout ms) [] (by rw [hids]; exact hdsorted) (by intro a ha; cases ha)]
+    simp
+  have hnd : dcs.Nodup := hdsorted.imp (fun h => Nat.ne_of_lt h)
+  have hdin : self.2.2 ∈ dcs := by
+    rw [← hdcs]
+    have : ∀ (l : List Nat) (x : Nat), x ∈ l → x ∈ l.foldr insertNat [] := by
+      intro l
+      induction l with
+      | nil => intro x hx; cases hx
+      | cons y ys ih =>
+        intro x hx
+        simp only [List.foldr_cons]
+        rw [mem_insertNat]
+        rcases List.mem_cons.1 hx with rfl | hx
+        · exact Or.inl rfl
+        · exact Or.inr (ih x hx)
+    exact this _ _ (List.mem_map.2 ⟨self, hkept, rfl⟩)
+  refine ⟨⟨0, (kept.filter (fun m => m.2.2 == self.2.2)).map (·.2.1)⟩, ?_, ?_⟩
+  · rw [hfold]
+    apply getDc_map_mk
+    · rw [hlay]; exact List.mem_map.2 ⟨self.2.2, hdin, rfl⟩
+    · rw [hids]; exact hnd
+  · exact List.mem_map.2 ⟨self, List.mem_filter.2 ⟨hkept, by simp⟩, rfl⟩
+
+/-- **wired_selection_sound_of_snapshot**: `wired_selection_sound` with its remaining hypothesis
+discharged from the snapshot itself: distinct node ids (they are map keys), the local member listed,
+first at its address, in the data centre the selector was created for. -/
+theorem wired_selection_sound_of_snapshot (a : Actor) (ms : List MemberDc) (hid : (ms.map (·.1)).Nodup)
+    (self : MemberDc) (hself : self ∈ ms) (hfirst : ∀ x ∈ ms, x.2.1 = self.2.1 → self.1 ≤ x.1)
+    (hdc : a.localDc = self.2.2) (lvl : Level) (choice : List Nat)
+    (hchoice : ∀ n, (lvl = .one → n = 1) → (lvl = .two → n = 2) → (lvl = .three → n = 3) →
+      (lvl = .one ∨ lvl = .two ∨ lvl = .three) → GoodChoice (setNodes a (dcLayout ms)).dcs n choice) :
+    let b := setNodes a (dcLayout ms)
+    ∀ ns, (selectNodes b.local_ b.localDc b.total b.dcs lvl choice).1 = .ok ns →
+      ns.Nodup ∧ b.local_ ∉ ns ∧ (∀ x ∈ ns, x ∈ allNodes b.dcs) ∧
+      ns.length ≥ required lvl b.local_ b.localDc b.total b.dcs := by
+  obtain ⟨c, hc, _⟩ := local_dc_present a ms hid self hself hfirst
+  exact wired_selection_sound a ms lvl choice ⟨c, by rw [hdc]; exact hc⟩ hchoice
+
 /-- Defect D21 (pinned wiring): two member ids at one address put it into the map twice; the map
 is not well-formed and `All` returns the address twice.  The current wiring lists it once. -/
 theorem legacy_wiring_duplicates :
